@@ -6,7 +6,7 @@ value and the export/load identity are checked after EVERY call; no call in the 
 from collections import Counter
 
 from .. import bl, gen, refimpl
-from ..core import Prop, Workload
+from ..core import Inconclusive, Prop, Workload
 
 I32MAX, I32MIN = refimpl.INT32_MAX, refimpl.INT32_MIN
 U32MAX, I64MAX, I64MIN, U64MAX = refimpl.UINT32_MAX, refimpl.INT64_MAX, refimpl.INT64_MIN, refimpl.UINT64_MAX
@@ -128,6 +128,27 @@ def wl_cms(ctx, rng, case):
             for c in idx:
                 model[c] = clamp(model[c] - n, I32MIN, I32MAX)
             total = clamp(total - n, I64MIN, I64MAX)
+        elif rng.random() < 0.12:
+            # a call that is REFUSED (a hash list made for a deeper sketch) with an amount that would carry the key's cells across a limit:
+            # no cell is left half-updated - the sketch is exactly what it was
+            key = rng.choice(keys)
+            before_s = bytes(s)
+            n = amount(rng, I32MAX)
+            deep = s.hashes(key, depth + rng.randint(1, 3))
+            case.op("refused-deep-list", key, n)
+            try:
+                if extra:
+                    (s.remove_alt if can_remove and rng.random() < 0.4 else s.add_alt)(key, deep, n)
+                else:
+                    (s.remove_alt if can_remove and rng.random() < 0.4 else s.add_alt)(deep, n)
+                ctx.count("deep_list_calls_that_were_accepted")
+                before_s = None
+            except IndexError:
+                ctx.count("refused_deep_list_calls_at_the_limits")
+            if before_s is not None:
+                ctx.check(bytes(s) == before_s and s.elements_added == total, "a refused call (hash list of a deeper sketch) left the sketch changed", got=s.elements_added, want=total)
+                continue
+            raise Inconclusive("a deeper hash list was accepted: the model cannot follow")
         else:
             # join with a second near-limit sketch
             if rng.random() < 0.3:
@@ -173,7 +194,7 @@ def wl_cms(ctx, rng, case):
             case.op("join", k2, -n2 if neg else n2)
             recv_before = list(model)
             ret, exc = ctx.call(s.join, t)
-            ctx.check(bytes(t) == bytes(t) and cms_cells(t) == tcells, "join modified its argument")
+            ctx.check(cms_cells(t) == tcells, "join modified its argument")
             got = cms_cells(s)["cells"]
             for i, (a, b) in enumerate(zip(recv_before, tcells["cells"])):
                 ok = {clamp(a + b, I32MIN, I32MAX)}
